@@ -415,3 +415,11 @@ Definition law_openchild_X (exc : list positive) (s' : st) : bool :=
   implb (caught_up s') (forallb (fun c => negb (open_child_under_closed_parent s' c) || mem_pos c exc) (map fst (map_to_list (srv s')))).
 Definition law_openchild_Y (exc : list positive) (s' : st) : bool :=
   implb (caught_up s') (forallb (fun c => negb (open_child_under_closed_parent s' c && mem_pos c exc)) (map fst (map_to_list (srv s')))).
+
+(* liveness half of "becomes Closed only when none remain", at the END of a caught-up history
+   whose PodGroup events have all been handled: no queue is left Closing although no PodGroup
+   object names it and nothing is pending *)
+Definition law_no_idle_closing (s' : st) : bool :=
+  implb (caught_up s')
+        (forallb (fun q => negb (bool_decide (sst (srv s') q = Some SClosing) && bool_decide (real_pgs s' q = [])))
+                 (map fst (map_to_list (srv s')))).
